@@ -624,18 +624,18 @@ def s6_send(prog, rep, P, tag=""):
         if b.reachable_strict(x) & (ms | rl):
             ok = False
     rep.ob(P + ".S6", "send_blocking:exactly-one-resolution" + tag, ok, "every path of send_blocking ends in exactly one of mark_sent / release_sending_claim", loc=b.span)
-    # mark_sent only when the whole frame went out
-    good = False
-    for cd in q.conds(b):
-        if cd.kind == "cmp" and cd.op in ("Eq", "Ne"):
-            eq_t = cd.true_target() if cd.op == "Eq" else cd.false_target()
-            dom = q.edge_dominated(b, cd.bb, eq_t)
-            if ms and all(m in dom for m in ms):
-                pr = Prov(b)
-                l, r = pr.of_operand(cd.lhs), pr.of_operand(cd.rhs)
-                both = l | r
-                if has_root(both, "call", "slice::len") or has_root(both, "call", "SendableFrame::as_bytes") or has_root(both, "call", "SendableFrame::len"):
-                    good = True
+    # mark_sent only when the whole frame went out: after the comparison of the count the driver reported with the
+    # frame length came out unequal, mark_sent is not feasible any more (whatever carries the verdict: a match guard, an
+    # early return, a bool, or a Result tested with is_ok() / match)
+    pr = Prov(b)
+    sites = q.comparison_sites(b, lambda x, y: has_root(x | y, "call", "slice::len") or has_root(x | y, "call", "SendableFrame::as_bytes") or has_root(x | y, "call", "SendableFrame::len"), pr)
+    good = bool(ms) and bool(sites)
+    for s_ in sites:
+        bad_blocks = q.feasible_after(b, s_, equal=False)
+        good_blocks = q.feasible_after(b, s_, equal=True)
+        good = good and not (ms & bad_blocks) and bool(ms & good_blocks)
+    if sites and ms & q.feasible_from_entry(b, avoid={s_[4] for s_ in sites}):
+        good = False
     rep.ob(P + ".S6", "send_blocking:sent-only-if-complete" + tag, good, "mark_sent is reached only on the edge where bytes_sent equals the frame length", loc=b.span)
 
 
